@@ -34,7 +34,7 @@ def pyrepr(v):
 
 
 REPLAY_ENV = {'datetime': datetime, 'time': time, 'Decimal': D, 'decimal': decimal, 'bytearray': bytearray,
-              'float': float, 'bytes': bytes, 'object': object, 'frozenset': frozenset, 'set': set, 'range': range}
+              'float': float, 'bytes': bytes, 'memoryview': memoryview, 'object': object, 'frozenset': frozenset, 'set': set, 'range': range}
 
 
 def pyeval(s):
